@@ -340,6 +340,41 @@ class ScriptGen:
         if th is not None and self.r.random() < 0.7:
             self.record('subst_type', TyInst(**{sa.name: TVar('c')}), [th], False)
 
+    def do_forall_elim_open(self):
+        """forall_elim (and beta_conv) with an OPEN argument whose loose index hides in an argument position (get_type does not look
+        there), on a valid lemma in which every occurrence of the quantified variable sits under a further binder: the loose
+        index must not be captured by that binder."""
+        Bt = BoolType
+        x, y, p_ = Var('x', Bt), Var('y', Bt), Var('p', Bt)
+        falsity = Forall(p_, p_)
+        H = Forall(y, Eq(y, x))
+        t0 = self.record('assume', H, [], False)
+        if t0 is None:
+            return
+        t1 = self.record('forall_elim', Implies(x, x), [t0], False)
+        t2 = self.record('forall_elim', falsity, [t0], False)
+        t3 = self.record('symmetric', None, [t2], False) if t2 is not None else None
+        t4 = self.record('transitive', None, [t1, t3], False) if t1 is not None and t3 is not None else None
+        t5 = self.record('assume', x, [], False)
+        t6 = self.record('implies_intr', x, [t5], False) if t5 is not None else None
+        t7 = self.record('equal_elim', None, [t4, t6], False) if t4 is not None and t6 is not None else None
+        t8 = self.record('implies_intr', H, [t7], False) if t7 is not None else None
+        lemma = self.record('forall_intr', x, [t8], False) if t8 is not None else None      # |- !x. (!y. y = x) --> (!p. p)
+        if lemma is None:
+            return
+        ident = Abs('z', Bt, Bound(0))
+        fv, gv = Var('f', TFun(Bt, Bt)), Var('g', TFun(Bt, Bt, Bt))
+        opens = [Comb(ident, Bound(0)), Comb(fv, Bound(0)), Comb(Comb(gv, Var('c', Bt)), Bound(0)), Comb(fv, Comb(ident, Bound(0))), Bound(0),
+                 Comb(Comb(gv, Bound(0)), Bound(0))]
+        for a_ in self.r.sample(opens, 3):
+            th = self.record('forall_elim', a_, [lemma], True)
+            if th is not None and a_ is opens[0]:
+                b1 = self.record('beta_conv', Comb(ident, y), [], False)
+                b2 = self.record('symmetric', None, [b1], False) if b1 is not None else None
+                b3 = self.record('forall_intr', y, [b2], False) if b2 is not None else None
+                if b3 is not None:
+                    self.record('implies_elim', None, [th, b3], True)
+
     def do_subst_capture(self):
         """Replacement that is open only in an argument position (get_type does not look there)
         for a variable that occurs under binders in hypothesis and conclusion."""
@@ -371,6 +406,8 @@ class ScriptGen:
             return self.do_subst_shared_tyvar()
         if not near and self.r.random() < 0.2:
             return self.do_subst_svar_hyp_only()
+        if self.r.random() < 0.06:
+            return self.do_forall_elim_open()
         if near and self.r.random() < 0.2:
             return self.do_subst_capture()
         th = self.pick(lambda t: any(h.get_svars() for h in list(t.hyps) + [t.prop])) if self.r.random() < 0.8 else self.pick()
